@@ -104,6 +104,8 @@ def main():
     n = 0
     # (A) full constructor product, probe datetimes
     exprs_a = EXPRS if TIER != "quick" else [EXPRS[2], EXPRS[1], EXPRS[6], EXPRS[7]]
+    if TIER == "repr":
+        exprs_a = []
     for expr in exprs_a:
         for tz, country, coords, ac, at in itertools.product(TIMEZONES, COUNTRIES, COORDS, FLAGS, FLAGS):
             kw = ctor_kwargs(tz, country, coords, ac, at)
@@ -125,7 +127,7 @@ def main():
     reps = [(ABSENT, ABSENT, ABSENT, ABSENT, ABSENT), ("Europe/Paris", ABSENT, ABSENT, ABSENT, ABSENT), ("Europe/Paris", "FR", (48.85, 2.35), ABSENT, ABSENT), (ABSENT, ABSENT, (48.85, 2.35), ABSENT, ABSENT),
             (ABSENT, ABSENT, (40.71, -74.0), True, False), (ABSENT, ABSENT, (40.71, -74.0), False, True), ("Pacific/Apia", "US", ABSENT, ABSENT, ABSENT), ("UTC", ABSENT, (0.0, 0.0), None, None),
             (ABSENT, "FR", ABSENT, ABSENT, ABSENT), ("Europe/Paris", ABSENT, (40.71, -74.0), ABSENT, ABSENT)]
-    for expr in EXPRS[:6]:
+    for expr in (EXPRS[:6] if TIER != "repr" else []):
         for tz, country, coords, ac, at in reps:
             kw = ctor_kwargs(tz, country, coords, ac, at)
             rec = {"part": "B", "expr": expr, "ctor": enc_ctor(tz, country, coords, ac, at)}
